@@ -16,7 +16,7 @@ if [ "$MODE" = asan ]; then
   SAN="-fsanitize=address -fsanitize=bounds,null,object-size,pointer-overflow,nonnull-attribute,vla-bound -fno-sanitize-recover=all -fno-omit-frame-pointer"
 fi
 OPT="-O1"
-if [ "$MODE" = cov ]; then SAN="--coverage"; OPT="-O0"; fi   # function/line coverage of the library under the checks (bin/coverage.sh)
+if [ "$MODE" = cov ]; then SAN="--coverage -DH4V_COV"; OPT="-O0"; fi   # function/line coverage of the library under the checks (bin/coverage.sh)
 CFLAGS="$OPT -g -w -fPIC -DHDF -DH4_VERIF $SAN -I$CFG -I$REPO/hdf/src -I$REPO/mfhdf/src -I$HERE/harness"
 HS=$(grep -o 'HDF4_HDF_SRC_SOURCE_DIR}/[a-z0-9_]*\.c' $REPO/hdf/src/CMakeLists.txt | sed "s#.*}/#$REPO/hdf/src/#" | sort -u)
 MS=$(grep -o 'HDF4_MFHDF_SRC_SOURCE_DIR}/[a-z0-9_]*\.c' $REPO/mfhdf/src/CMakeLists.txt | sed "s#.*}/#$REPO/mfhdf/src/#" | sort -u)
